@@ -20,6 +20,13 @@ pub fn run(n: u64, seed: u64) -> Result<String, String> {
     if h[..4] != [0xba, 0x78, 0x16, 0xbf] || h[28..] != [0xf2, 0x00, 0x15, 0xad] {
         return Err("sha256 check value".into());
     }
+    // the embedded range-encoder boundary witnesses still do what they say
+    for i in 0..gen::RC_BOUNDARY_WITNESSES.len() {
+        let (target, w) = gen::rc_witness(i);
+        if !crate::rcsearch::lows_at_shifts(&w).contains(&target) {
+            return Err(format!("range-encoder witness {}: low never equals {:#x} at a shift", i, target));
+        }
+    }
     let mut lib_lzma = 0u64;
     let mut lib_xz = 0u64;
     let mut ref_rt = 0u64;
